@@ -1,6 +1,7 @@
 """C11 - applying a simplification changes exactly the designated subtrees
 (model-based; stateful machine for pending simplifications)."""
 import copy
+import os
 
 import hypothesis
 from hypothesis import strategies as st
@@ -23,7 +24,8 @@ RULE = ('Hypothesis-drawn lists of trees (script-like, with a set-logic/set-info
         'set of pending simplifications for the current input and applies them in '
         'any order (real == model after every step).  Pending identity-keyed simplifications '
         'are also applied one after the other by freshly forked worker processes, each to '
-        'the result the previous worker sent back (as in a -j n run).  Every call runs under a 2 s '
+        'the result the previous worker sent back (as in a -j n run); traced real parallel ddmin/hybrid runs: every '
+        'adopted result derives from the then-current input (C05\'s chain oracle, keys run/...).  Every call runs under a 2 s '
         'CPU-time limit.  Non-trivial: replacement contains a key, or >= 2 keys, or '
         'deletion of a last child / top-level item / the root.')
 ASSUMPTIONS = [
@@ -512,6 +514,22 @@ def shard(ctx, acc):
         nt, classes = run_workers_case(dd, case, acc)
         acc.case(case, nontrivial=nt, classes=classes)
 
+    # real parallel ddmin runs: every result that is adopted must be the CURRENT input with
+    # the designated subtrees removed/replaced - not an older input a worker still holds
+    # (C05's chain oracle on traced runs, reported here under run/...)
+    from checks import c05
+    racc = runner.BorrowedAcc(acc, 'run/', dict(kind='ddmin-run'))
+    rn = [0]
+
+    def rbody(case):
+        rn[0] += 1
+        wd = os.path.join(ctx.workdir, f'run{rn[0] % 3}')
+        nt, classes, r = c05.run_case(case, racc, wd)
+        racc.case(case, nontrivial=nt, classes=classes + ['ddmin-run'])
+
+    runner.hyp_run(ctx, c05.cases().filter(lambda c: c['opts']['strategy'] != 'hierarchical'), rbody,
+                   ctx.share(48 if ctx.quick else 1200), salt=29)
+
     wstrat = id_case().filter(lambda c: len(c['repl']) >= 2)
     runner.hyp_run(ctx, wstrat, wbody, ctx.share(1600 if ctx.quick else 40000), salt=23)
 
@@ -539,6 +557,9 @@ def replay(case, acc, ctx):
     guard.limit_memory(3)
     if case.get('kind') == 'machine':
         replay_machine(dd, case['steps'], acc)
+    elif case.get('kind') == 'ddmin-run':
+        from checks import c05
+        c05.run_case(case, runner.BorrowedAcc(acc, 'run/', dict(kind='ddmin-run')), os.path.join(ctx.workdir, 'replay'))
     elif case.get('kind') == 'ids-workers':
         run_workers_case(dd, case, acc)
     else:
